@@ -394,6 +394,21 @@ impl<'a> TransactionRebase<'a> {
                     deleted_fragment_ids: removed_fragment_ids,
                     ..
                 } => {
+                    // Two jobs must not both mark the same MemWAL as merged,
+                    // even if they touch different fragments.
+                    if let Operation::Update {
+                        mem_wal_to_merge: committed_mem_wal_to_merge,
+                        ..
+                    } = &other_transaction.operation
+                    {
+                        self.check_update_mem_wal_state_not_modify_same_mem_wal(
+                            committed_mem_wal_to_merge.as_slice(),
+                            mem_wal_to_merge.as_slice(),
+                            other_transaction,
+                            other_version,
+                        )?;
+                    }
+
                     if !updated_fragments
                         .iter()
                         .map(|f| f.id)
